@@ -1,6 +1,6 @@
 ------------------------------ MODULE MC_Watershed ------------------------------
 (* Exhaustive model: every input grid over Vals, one or two runs (E and E shifted by one   *)
-(* direction bin) of the step-granular watershed; checks C04 clauses and C20's native half. *)
+(* direction bin) of the step-granular watershed (a constant spectrum is a single partition: early return); checks C04 clauses and C20's native half. *)
 EXTENDS Watershed, Json
 
 CONSTANTS Vals, TWORUN, EMIT,
@@ -39,8 +39,8 @@ Init == /\ e \in (IF PATTERNS THEN PatternSet ELSE [Px -> Vals])
 
 Emit(ee, ww) ==
   IF EMIT THEN PrintT(ToJson([e |-> [k \in 1..NSPEC |-> ee[k-1]],
-                               p |-> [k \in 1..NSPEC |-> IF ww.pc = "const" THEN 0 ELSE OutC(ww.st.imo)[k-1]],
-                               np |-> ww.st.lab, nk |-> NK, nth |-> NTH, ihmax |-> IHMAX]))
+                               p |-> [k \in 1..NSPEC |-> IF ww.pc = "const" THEN 1 ELSE OutC(ww.st.imo)[k-1]],
+                               np |-> IF ww.pc = "const" THEN 1 ELSE ww.st.lab, nk |-> NK, nth |-> NTH, ihmax |-> IHMAX]))
   ELSE TRUE
 
 StepA == /\ w.pc \notin {"done", "const"}
@@ -56,7 +56,7 @@ Finish == /\ w.pc \in {"done", "const"}
                   /\ w' = Start(ShiftIn(e))
                   /\ rc' = RunConst(ShiftIn(e))
                   \* run 2 sees the data one bin earlier along dir: class {(i,j)} of run 1 is {(i,j-1)} there
-                  /\ first' = IF w.pc = "const" THEN {} ELSE ClassesShift(w.st.imo, NTH - 1)
+                  /\ first' = IF w.pc = "const" THEN {{<<n % NK, n \div NK>> : n \in Px}} ELSE ClassesShift(w.st.imo, NTH - 1)
              ELSE /\ run' = 3 /\ UNCHANGED <<e, w, first, rc>>
 
 Finish2 == /\ w.pc \in {"done", "const"} /\ run = 2 /\ run' = 3 /\ UNCHANGED <<e, w, first, rc>>
@@ -77,5 +77,5 @@ OnePerRegionalMax == w.pc = "done" => PostOK(w.st.imo, rc.imi, w.st.lab)
 PostDefsAgree == w.pc = "done" => (PostOK(w.st.imo, rc.imi, w.st.lab) = PostOKRef(w.st.imo, rc.imi, w.st.lab))
 ConstNoPartition == w.pc = "const" => IsConst(e)
 ShiftEquivariant == (run = 2 /\ w.pc \in {"done", "const"}) =>
-                       IF w.pc = "const" THEN first = {} ELSE ClassesShift(w.st.imo, 0) = first
+                       IF w.pc = "const" THEN first = {{<<n % NK, n \div NK>> : n \in Px}} ELSE ClassesShift(w.st.imo, 0) = first
 =============================================================================
